@@ -205,6 +205,8 @@ const preludeFixed = `(declare-datatypes ((Slice 0)) (((mk_Slice (s_arr Int) (s_
 (declare-fun kind (Int) Int)
 (declare-fun root (Int) Int)
 (declare-fun strlen (Int) Int)
+(assert (= (strlen 0) 0))
+(assert (forall ((s Int)) (! (and (>= (strlen s) 0) (=> (= (strlen s) 0) (= s 0))) :pattern ((strlen s)))))
 (declare-fun str_concat (Int Int) Int)
 (declare-fun str_lower (Int) Int)
 `
